@@ -86,9 +86,21 @@ Definition try_op (l : ty) (o : aop) (r : ty) : option ty :=
 Definition binop (l : ty) (o : aop) (r : ty) : option ty :=
   match try_op l o r with Some t => Some t | None => try_op r o l end.
 
-(* first occurrences, in order (a dict keyed by the type) *)
+(* on_list: `{value.types: value for value in values}` - a dict keyed by the class of the type (list, Union, int ...), type
+   arguments not looked at: one entry per class, at the position of its first occurrence, holding its last occurrence *)
+Definition same_class (a b : ty) : bool :=
+  match a, b with
+  | TB x, TB y => base_eqb x y
+  | TList _, TList _ | TDict _ _, TDict _ _ | TTuple _, TTuple _ | TUnion _, TUnion _ | TUnknown, TUnknown => true
+  | _, _ => false
+  end.
+Fixpoint last_of_class (t : ty) (r : list ty) : ty :=
+  match r with [] => t | u :: r' => last_of_class (if same_class t u then u else t) r' end.
 Fixpoint dedupe (ts : list ty) : list ty :=
-  match ts with [] => [] | t :: r => t :: filter (fun u => negb (ty_eqb t u)) (dedupe r) end.
+  match ts with [] => [] | t :: r => last_of_class t r :: filter (fun u => negb (same_class t u)) (dedupe r) end.
+(* the element types of a list literal agree wherever they are of one class (then the dict above loses nothing) *)
+Definition classes_ok (ts : list ty) : bool :=
+  forallb (fun a => forallb (fun b => negb (same_class a b) || ty_eqb a b) ts) ts.
 
 Fixpoint infer (G : nat -> option ty) (e : expr) : option ty :=
   match e with
@@ -258,7 +270,13 @@ Fixpoint guard (G : nat -> option ty) (e : expr) : bool :=
   | ENot a => guard G a
   | EAnd a b | EOr a b => guard G a && guard G b && is_b BBool (infer' G a) && is_b BBool (infer' G b)
   | EIf c a b => guard G c && guard G a && guard G b
-  | EList es | ETuple es => (fix go (l : list expr) : bool := match l with [] => true | x :: r => guard G x && go r end) es
+  | EList es =>
+      (fix go (l : list expr) : bool := match l with [] => true | x :: r => guard G x && go r end) es
+      && match (fix go (l : list expr) : option (list ty) := match l with [] => Some [] | x :: r => match infer' G x, go r with Some t, Some ts => Some (t :: ts) | _, _ => None end end) es with
+         | Some ts => classes_ok (filter (fun t => negb (ty_eqb t TUnknown)) ts)
+         | None => true
+         end
+  | ETuple es => (fix go (l : list expr) : bool := match l with [] => true | x :: r => guard G x && go r end) es
   | EDict kvs =>
       (fix go (l : list (expr * expr)) : bool := match l with [] => true | (k, v) :: r => guard G k && guard G v && go r end) kvs
       && match kvs with
